@@ -489,11 +489,11 @@ pub fn run(ctx: &Ctx) {
     ctx.assume("oracle: own Householder QR / one-sided Jacobi SVD in f64; Phi from the zoo's closed formulas evaluated in the scalar type under test");
     ctx.assume("strict-certificate failures are attributed to KF-1 only when the dependency's measured SVD reconstruction error explains them (DESIGN 3.4)");
     let t = ctx.tier;
-    let b = t.pick(12.0, 120.0);
-    ctx.run_cases("states", t.pick(12000, 60000), b, |r, c, o| if c % 3 == 0 { states_case::<f32>(r, c, o) } else { states_case::<f64>(r, c, o) });
-    ctx.run_cases("fit-trajectories", t.pick(1500, 8000), b, |r, c, o| if c % 4 == 0 { fit_case::<f32>(r, c, o) } else { fit_case::<f64>(r, c, o) });
-    ctx.run_cases("designed-rank", t.pick(8000, 40000), b, |r, c, o| if c % 3 == 0 { designed_case::<f32>(r, c, o) } else { designed_case::<f64>(r, c, o) });
-    ctx.run_cases("threshold-boundary", t.pick(1000, 5000), b, |r, c, o| if c % 2 == 0 { boundary_case::<f32>(r, c, o) } else { boundary_case::<f64>(r, c, o) });
-    ctx.run_cases("duplicate-columns", t.pick(1000, 5000), b, |r, c, o| if c % 3 == 0 { duplicate_case::<f32>(r, c, o) } else { duplicate_case::<f64>(r, c, o) });
-    ctx.run_cases("linearity", t.pick(3000, 15000), b, |r, c, o| if c % 3 == 0 { linearity_case::<f32>(r, c, o) } else { linearity_case::<f64>(r, c, o) });
+    let b = t.pick(30.0, 900.0);
+    ctx.run_cases("states", t.pick(12000, 480000), b, |r, c, o| if c % 3 == 0 { states_case::<f32>(r, c, o) } else { states_case::<f64>(r, c, o) });
+    ctx.run_cases("fit-trajectories", t.pick(1500, 64000), b, |r, c, o| if c % 4 == 0 { fit_case::<f32>(r, c, o) } else { fit_case::<f64>(r, c, o) });
+    ctx.run_cases("designed-rank", t.pick(8000, 320000), b, |r, c, o| if c % 3 == 0 { designed_case::<f32>(r, c, o) } else { designed_case::<f64>(r, c, o) });
+    ctx.run_cases("threshold-boundary", t.pick(1000, 40000), b, |r, c, o| if c % 2 == 0 { boundary_case::<f32>(r, c, o) } else { boundary_case::<f64>(r, c, o) });
+    ctx.run_cases("duplicate-columns", t.pick(1000, 40000), b, |r, c, o| if c % 3 == 0 { duplicate_case::<f32>(r, c, o) } else { duplicate_case::<f64>(r, c, o) });
+    ctx.run_cases("linearity", t.pick(3000, 120000), b, |r, c, o| if c % 3 == 0 { linearity_case::<f32>(r, c, o) } else { linearity_case::<f64>(r, c, o) });
 }
